@@ -117,17 +117,23 @@ def make_execution(rng, ctx, idx, nvar):
 
 
 def model_check(ctx, quick):
+    """AcmodPipeImpl against FeatStream: for every split of the cepstra over process calls (empty ones included),
+    every placement of buffered calls and the end of the utterance, the search receives exactly the canonical
+    windows; the pre-fix STARTED handling must violate it (negative control)."""
     rep = ctx.report
-    cfg = "AcmodPipe_small.cfg" if quick else "AcmodPipe_big.cfg"
-    if not os.path.exists(os.path.join(SPEC, cfg)):
-        return
-    r = tlc.run("MC_AcmodPipe.tla", cfg, SPEC, workers=16, timeout=2400, coverage=True, heap="12g")
-    if r.violated:
-        raise tlc.ModelError("AcmodPipeImpl violates %s in %s:\n%s" % (r.violated, cfg, r.out[-2500:]))
-    for act in ("Process", "EndUtt", "Search"):
-        if act in r.coverage and r.coverage[act][0] == 0:
-            raise tlc.ModelError("vacuous: action %s never taken in %s" % (act, cfg))
-    rep.add_tlc("MC_AcmodPipe.tla/" + cfg, r)
+    for cfg in (["AcmodPipe_small.cfg"] if quick else ["AcmodPipe_small.cfg", "AcmodPipe_big.cfg"]):
+        # (TLC's -coverage disables LET caching, which makes the nested loops of this model explode; vacuity is
+        # excluded by the state count and by the negative control below, which needs Process and EndUtt to fire)
+        r = tlc.run("MC_AcmodPipe.tla", cfg, SPEC, workers=8, timeout=2400, heap="8g")
+        if r.violated:
+            raise tlc.ModelError("AcmodPipeImpl violates %s in %s:\n%s" % (r.violated, cfg, r.out[-2500:]))
+        if r.distinct < 30:
+            raise tlc.ModelError("vacuous: only %d states explored in %s" % (r.distinct, cfg))
+        rep.add_tlc("MC_AcmodPipe.tla/" + cfg, r)
+    r = tlc.run("MC_AcmodPipe.tla", "AcmodPipe_aswas.cfg", SPEC, workers=4, timeout=600)
+    if r.violated not in ("CompleteAtEnd", "SearchedAreWindows"):
+        raise tlc.ModelError("negative control failed: the pre-fix STARTED handling should violate the window invariants, got %s" % r.violated)
+    rep.notes["negative_control"] = "AcmodPipe_aswas.cfg (empty first chunk ends STARTED) violates %s as expected" % r.violated
 
 
 def classify(f, script):
